@@ -131,11 +131,17 @@ class Sym:
                                 return walk(blk)
                         for h in st.handlers:
                             if any(contains_t(x) for x in h.body):
+                                guards.append(("except", unparse(h.type).strip("()") if h.type is not None else "BaseException"))
                                 return walk(h.body)
                     if isinstance(st, (ast.With,)):
                         return walk(st.body)
                     return True      # the target is inside a simple statement (expression)
-                # statement before the target
+                # statement before the target: an `if` whose one arm leaves (return / raise / continue / break) guards what follows
+                if isinstance(st, ast.If):
+                    t1, t2 = self._terminates(st.body), self._terminates(st.orelse)
+                    if t1 != t2:
+                        c = self.expr(st.test, env, 0)
+                        guards.append(mknot(c) if t1 else c)
                 if isinstance(st, (ast.For, ast.While, ast.Try, ast.With)):
                     # interpret what is understood, mark the rest opaque
                     self._run([st] if not isinstance(st, (ast.Try, ast.With)) else list(st.body), env, 0, None)
@@ -379,6 +385,7 @@ class Sym:
     def _mark_loop_mutations(self, loop, env):
         """names whose value is carried around the loop: assigned, augmented, stored into, or mutated through a method"""
         q = self.fi.qual
+        filled = set()
         for n in ast.walk(loop):
             if isinstance(n, ast.Name) and isinstance(n.ctx, ast.Store):
                 env[n.id] = ("loop", n.id, q)
@@ -387,13 +394,20 @@ class Sym:
             elif isinstance(n, (ast.Subscript, ast.Attribute)) and isinstance(n.ctx, ast.Store):
                 d = dotted(n.value)
                 if d and d not in ("self", "cls"):
-                    env[d] = ("loop", d, q)
+                    filled.add(d)
                 if isinstance(n, ast.Attribute) and dotted(n) and dotted(n).startswith("self."):
                     env[dotted(n)] = ("loop", dotted(n), q)
             elif isinstance(n, ast.Call) and isinstance(n.func, ast.Attribute) and n.func.attr in self.MUTATORS:
                 d = dotted(n.func.value)
                 if d and d not in ("self", "cls"):
-                    env[d] = ("loop", d, q)
+                    filled.add(d)
+        # objects that are stored into / mutated (not rebound) inside the loop keep their identity: ('filled', <what they were>)
+        for d in filled:
+            cur = env.get(d)
+            if cur is None:
+                continue
+            if cur[0] not in ("loop", "filled"):
+                env[d] = ("filled", cur)
 
     def _terminates(self, stmts):
         return bool(stmts) and isinstance(stmts[-1], (ast.Return, ast.Raise, ast.Continue, ast.Break))
@@ -840,6 +854,8 @@ def show(x, depth=0):
         return "[%s for %s in %s%s]" % (show(x[1]), show(x[2]), show(x[3]), "".join(" if " + show(c) for c in x[4]))
     if tag == "try":
         return "try(%s except %s: %s)" % (show(x[1]), x[2], show(x[3]))
+    if tag == "filled":
+        return "filled-in-loop(%s)" % show(x[1])
     if tag == "first":
         return "first(%s, else %s)" % (show(x[1]), show(x[2]))
     if tag == "phi":
